@@ -26,6 +26,9 @@ import (
 // "crash" = killed by a signal, timed out, or a Go panic / fatal error trace on stderr.
 func init() {
 	register("cli", func(a []string) string {
+		if len(a) >= 3 && a[1] == "files" {
+			return cliFiles(a[0], a[2:])
+		}
 		if len(a) != 3 || (a[1] != "file" && a[1] != "file2" && a[1] != "stdin") {
 			return "badinput"
 		}
@@ -106,6 +109,68 @@ func init() {
 		rep, _ := ioutil.ReadFile(errf)
 		return fmt.Sprintf("ok %d %s %s", status, xhex(out), xhex(rep))
 	})
+}
+
+// cliFiles: ion-go process -f <format> -o <tmp out> -e <tmp report> <tmp in 0> <tmp in 1> ...  (several input files
+// on one command line; each part is written to its own file exactly as given, e.g. text without a final newline)
+//
+//	cli <format> files x<part> x<part> ...  -> ok <exit status> x<output> x<error report> | crash ...
+func cliFiles(format string, parts []string) string {
+	bin := os.Getenv("VH_IONGO")
+	if bin == "" {
+		return "badinput"
+	}
+	dir, err := ioutil.TempDir(os.TempDir(), "vhcli")
+	if err != nil {
+		return "badinput"
+	}
+	defer os.RemoveAll(dir)
+	outf, errf := dir+"/out", dir+"/report"
+	args := []string{"process", "-f", format, "-o", outf, "-e", errf}
+	for i, p := range parts {
+		b, ok := unx(p)
+		if !ok {
+			return "badinput"
+		}
+		inf := fmt.Sprintf("%s/in%d.ion", dir, i)
+		if err := ioutil.WriteFile(inf, b, 0600); err != nil {
+			return "badinput"
+		}
+		args = append(args, inf)
+	}
+	ctx, cancel := context.WithTimeout(context.Background(), 20*time.Second)
+	defer cancel()
+	cmd := exec.CommandContext(ctx, bin, args...)
+	var stdout, stderr bytes.Buffer
+	cmd.Stdout = &stdout
+	cmd.Stderr = &stderr
+	cmd.Env = append(os.Environ(), "GOMAXPROCS=1", "GOGC=off")
+	runErr := cmd.Run()
+	se := stderr.Bytes()
+	if len(se) > 300 {
+		se = se[:300]
+	}
+	if ctx.Err() != nil {
+		return "crash timeout " + xhex(se)
+	}
+	status := 0
+	if runErr != nil {
+		ee, isExit := runErr.(*exec.ExitError)
+		if !isExit {
+			return "badinput"
+		}
+		if ws, ok := ee.Sys().(syscall.WaitStatus); ok && ws.Signaled() {
+			return fmt.Sprintf("crash %s %s", strings.Replace(ws.Signal().String(), " ", "_", -1), xhex(se))
+		}
+		status = ee.ExitCode()
+	}
+	if s := stderr.String(); strings.Contains(s, "panic:") || strings.Contains(s, "fatal error:") || strings.Contains(s, "goroutine ") {
+		return fmt.Sprintf("crash %d %s", status, xhex(se))
+	}
+	out, _ := ioutil.ReadFile(outf)
+	out = append(out, stdout.Bytes()...)
+	rep, _ := ioutil.ReadFile(errf)
+	return fmt.Sprintf("ok %d %s %s", status, xhex(out), xhex(rep))
 }
 
 // ctraverse is reader.go's plain traversal with one more observation: for a non-null int the token of
